@@ -389,6 +389,10 @@ def build(run):
             run.add(undecided(f"{fq}/subset", f"outside the verified subset: {ex_}", fn=fq, meta={"replay": RP}))
         except NotFound as ex_:
             run.add(static(f"{fq}/exists", False, f"function under contract not found: {ex_}", fn=fq))
+    # the Tsukamoto branch multiplies each weight with term.tsukamoto(weight): the inverses themselves (finite, membership(tsukamoto(y)) = y, monotone) are the
+    # obligations of C11, included here because a weighted Tsukamoto result is only as right as they are
+    from props import C11
+    C11.build(run)
     budget = 300 if run.tier == "quick" else 6000
     run.bounded("defuzzifier.Weighted*/grouped_weighted.runtime", W_N, "replay_weighted", [dict(seed=run.seed, budget=budget)],
                 bound=f"{budget} random fuzzy outputs of 0-6 activations over 1-4 Constant/Linear/Function, monotonic or non-monotonic terms with repetitions x every aggregation operator or none x "
